@@ -85,7 +85,8 @@ def decide(stmts, atom: Callable[[ast.AST, dict], Optional[bool]], env: dict, bi
         elif isinstance(s, ast.Continue):
             return Outcome("continue", None, list(eff), s)
         elif isinstance(s, ast.Assign) and len(s.targets) == 1 and isinstance(s.targets[0], ast.Name):
-            b[s.targets[0].id] = s.value
+            # the value is fixed at assignment time: names bound so far are substituted now (a later re-binding of an operand must not change it)
+            b[s.targets[0].id] = _subst(s.value, b)
         elif isinstance(s, (ast.Assign, ast.AugAssign, ast.AnnAssign)):
             eff.append(s)
         elif isinstance(s, ast.Expr):
@@ -100,6 +101,14 @@ def decide(stmts, atom: Callable[[ast.AST, dict], Optional[bool]], env: dict, bi
     o = Outcome("fallthrough", None, list(eff))
     o.bindings = b  # type: ignore[attr-defined]
     return o
+
+
+def _subst(expr: ast.AST, b: dict) -> ast.AST:
+    if not any(isinstance(n, ast.Name) and isinstance(n.ctx, ast.Load) and b.get(n.id) is not None for n in ast.walk(expr)):
+        return expr
+    from .source import inline_node
+
+    return inline_node(expr, {k: v for k, v in b.items() if v is not None}, depth=9)
 
 
 def const_value(node: Optional[ast.AST]):
